@@ -9,6 +9,8 @@ import subprocess
 import sys
 from pathlib import Path
 
+from pyvc.driver import FunctionSpec
+
 from . import groups as g
 from . import templates, unroll_struct
 from .groups import concretise_ops
@@ -46,10 +48,88 @@ def specs(tier):
     # went unnoticed by C01 while these lived in C02 alone)
     return [*templates.all_templates(3 if tier == "quick" else 5, kids="impl"), ops.RuleSpec(4, None, "impl"),
             ops.SkipUntilSpec(), ops.RegexNodeSpec("RegexExpression"), ops.RegexNodeSpec("OptimizedChoice"),
-            *templates.skipuntil_templates(), *templates.regex_node_templates()]
+            *templates.skipuntil_templates(), *templates.regex_node_templates(), ModuleNames(), GeneratorFrameAudit()]
 
 
 concretise = concretise_ops(PROPERTY, default_modes=("interp", "gen", "interp+opt", "gen+opt"))
+
+
+# ------------------------------------------------------------------ module assembly: names (for ALL rule names, by structure)
+class ModuleNames(FunctionSpec):
+    """The names a generated module binds, for every grammar:
+      fixed names F   = what generate_module binds for the empty rule table (helpers, imports, entry points);
+      rule names N(r) = what it binds in addition for a rule r: exactly {parse_<r>, _parse_<r>} (checked on sentinels);
+    r -> parse_<r> is injective and prefix-disjoint from _parse_<r'> for identifier rule names (a rule name cannot start
+    with a digit, so parse__x = _parse_<r'> is impossible), hence no two rules collide; no fixed name has the form
+    parse_* / _parse_*, hence no rule overwrites a helper and no helper a rule - for ALL rule names, by structure.
+    The Rule enum's members are <name>.upper(): injective only up to case, and invalid for sunder / dunder names (finding)."""
+
+    target = "pest.grammar.codegen.generate.generate_module"
+    label = "C01.module_names"
+
+    def source(self, engine):
+        return engine.program.funcs[self.target]
+
+    @staticmethod
+    def bound(src: str) -> set[str]:
+        out = set()
+        for st in ast.parse(src).body:
+            for nd in ([st] if not isinstance(st, ast.If) else st.body):
+                if isinstance(nd, (ast.FunctionDef, ast.ClassDef)):
+                    out.add(nd.name)
+                elif isinstance(nd, ast.Assign):
+                    out |= {t.id for t in nd.targets if isinstance(t, ast.Name)}
+                elif isinstance(nd, ast.AnnAssign) and isinstance(nd.target, ast.Name):
+                    out.add(nd.target.id)
+                elif isinstance(nd, (ast.Import, ast.ImportFrom)):
+                    out |= {(a.asname or a.name).split(".")[0] for a in nd.names}
+        return out
+
+    def direct(self, run) -> None:
+        from pest import Parser
+        from pest.grammar.codegen.generate import generate_module
+
+        fixed = self.bound(generate_module({}))
+        run.oblige("fixed.nonempty", {"parse", "_RULE_MAP", "Rule"} <= fixed, note=str(sorted(fixed)))
+        clash = sorted(f for f in fixed if f.startswith(("parse_", "_parse_")))
+        run.oblige("fixed.no_rule_shaped_name", not clash, note=f"a rule named {[c.split('parse_', 1)[1] for c in clash]} would collide with {clash}")
+        for names in (["zq"], ["zq", "zq_x", "_zq", "Zq9"]):
+            p = Parser.from_grammar("\n".join(f'{n} = {{ "x" }}' for n in names), optimizer=None)
+            rules = {k: v for k, v in p.rules.items() if k in names}
+            extra = self.bound(generate_module(rules)) - fixed
+            want = {f"parse_{n}" for n in names} | {f"_parse_{n}" for n in names}
+            run.oblige(f"rule_names.shape[{len(names)}]", extra == want, note=f"bound {sorted(extra)}, expected {sorted(want)}")
+        # the Rule enum: member names must be injective in rule names and valid for every identifier
+        def enum_ok(names):
+            p = Parser.from_grammar("\n".join(f'{n} = {{ "x" }}' for n in names), optimizer=None)
+            ns: dict = {}
+            try:
+                exec(compile(p.generate(), "<g>", "exec"), ns)  # noqa: S102
+            except Exception as e:  # noqa: BLE001
+                return f"{type(e).__name__}: {e}"
+            return None if {str(m) for m in ns["Rule"]} >= set(names) else "members missing"
+
+        for case, names in (("case_distinct", ["zq", "ZQ"]), ("sunder", ["_zq_"]), ("dunder", ["__zq__"]), ("keyword", ["class", "def", "None", "mro", "name", "value"])):
+            why = enum_ok(names)
+            run.oblige(f"enum.valid[{case}]", why is None, note=f"rules {names}: generated module does not import: {why}")
+
+
+class GeneratorFrameAudit(FunctionSpec):
+    """generate() / generate_module() are functions of the Parser only - 'generating twice yields byte-identical source' and
+    'the source generated for one Parser does not depend on Parsers generated earlier': the syntactic modifies-audit of C15
+    (no attribute of self assigned outside __init__, no global / nonlocal, no mutable default, no mutation of a module-level
+    container) re-run as C01 obligations (round-5 seed C01c: a module-level cache of rule sources keyed by str(rule))."""
+
+    target = "pest.grammar.codegen.generate.generate_rule"
+    label = "C01.generator[frame audit]"
+
+    def source(self, engine):
+        return engine.program.funcs[self.target]
+
+    def direct(self, run) -> None:
+        from . import c15
+
+        c15.ConstructionFrameAudit.direct(c15.ConstructionFrameAudit(), run)
 
 
 # ------------------------------------------------------------------ bounded structural checks
@@ -172,5 +252,92 @@ def regeneration_check() -> dict:
             "evaluations": 2 * len(files), "bound": f"{len(files)} bundled grammars", "violation": bool(bad), "details": bad}
 
 
+NAME_STRESS = [
+    # rule names that look like the generated module's own names, Python keywords, builtins, each other up to prefixes
+    ('trivia = { "a" }\nstart = { trivia ~ "b" }', "start", ["ab", "a", ""]),
+    ('WHITESPACE = _{ " " }\ntrivia = { "a" }\nskip_trivia = { "c" }\nstart = { trivia ~ skip_trivia ~ "b" }', "start", ["a c b", "acb", "a"]),
+    ('parse = { "a" }\nstate = { parse ~ pairs }\npairs = { "b" }\nmain = { state ~ Parser }\nParser = { "c" }', "main", ["abc", "ab"]),
+    ('class = { "a" }\ndef = { class ~ None }\nNone = { "b" }\nre = { def ~ Pair }\nPair = { "c" }\ninner = { re }\nrule_frame = { inner ~ matched? }\nmatched = { "d" }', "rule_frame", ["abcd", "abc", "ab"]),
+    ('x = { "a" }\n_x = { x ~ "b" }\nx_ = { _x ~ "c" }\nparse_x = { x_ ~ "d" }\n_parse_x = { parse_x ~ "e" }', "_parse_x", ["abcde", "abcd"]),
+    ('RE1 = { \'a\'..\'c\' }\nSUBS1 = @{ (!"b" ~ ANY)* }\nr = { (RE1 | "x")+ ~ SUBS1 }', "r", ["abcb", "xa", ""]),
+    ('Rule = { "a" }\nRuleFrame = { Rule ~ "b" }\nParserState = { RuleFrame ~ Pairs }\nPairs = { "c" }\nPestParsingError = { ParserState }\n_RULE_MAP = { PestParsingError }', "_RULE_MAP", ["abc", "ab"]),
+]
+
+
+def name_stress_check() -> dict:
+    """generated module == interpreter on grammars whose rule names resemble the module's own names"""
+    from pest import Parser
+    from pest.exceptions import PestParsingError
+
+    bad = []
+    n = 0
+    for text, rule, inputs in NAME_STRESS:
+        for opt in (False, True):
+            try:
+                p = Parser.from_grammar(text) if opt else Parser.from_grammar(text, optimizer=None)
+            except Exception as e:  # noqa: BLE001
+                bad.append({"grammar": text, "what": f"from_grammar raised {type(e).__name__}: {e}"[:160]})
+                continue
+            try:
+                ns: dict = {}
+                exec(compile(p.generate(), "<generated>", "exec"), ns)  # noqa: S102
+            except Exception as e:  # noqa: BLE001
+                bad.append({"grammar": text, "opt": opt, "what": f"generated module does not import: {type(e).__name__}: {e}"[:160]})
+                continue
+            for inp in inputs:
+                n += 1
+                outs = []
+                for f in (p.parse, ns["parse"]):
+                    try:
+                        outs.append(("ok", f(rule, inp).dumps()))
+                    except PestParsingError as e:
+                        outs.append(("fail", e.state.furthest_pos))
+                    except Exception as e:  # noqa: BLE001
+                        outs.append(("raised", type(e).__name__))
+                if outs[0] != outs[1]:
+                    bad.append({"grammar": text, "rule": rule, "text": inp, "opt": opt, "interpreted": outs[0], "generated": outs[1]})
+    return {"name": "module-assembly-names", "kind": "bounded stand-in (generated vs interpreted on name-stress grammars)", "evaluations": n,
+            "bound": f"{len(NAME_STRESS)} grammars x optimizer on/off x 2-3 inputs", "violation": bool(bad), "details": bad[:4]}
+
+
+ORDER_PAIRS = [
+    # pairs of grammars with a rule that PRINTS identically but means something else
+    ('word = ${ "a" ~ "b" }\nitem = @{ word }', 'word = { "a" ~ "b" }\nitem = @{ word }', "item", "ab"),
+    ('sep = { "\\n" }\nr = { "a" ~ sep }', 'sep = { "\n" }\nr = { "a" ~ sep }', "r", "a\n"),
+    ('WHITESPACE = _{ " " }\nr = { "a" ~ "b" }', 'r = { "a" ~ "b" }', "r", "a b"),
+    ('x = _{ "a" }\nr = { x+ }', 'x = { "a" }\nr = { x+ }', "r", "aa"),
+]
+
+
+def generation_order_check() -> dict:
+    """the source generated for a Parser does not depend on what was generated earlier in the process"""
+    code = (
+        "import sys, json, hashlib\nfrom pest import Parser\n"
+        "gs = json.loads(sys.argv[1])\nout = []\n"
+        "for g in gs:\n"
+        "    for opt in (True, False):\n"
+        "        p = Parser.from_grammar(g) if opt else Parser.from_grammar(g, optimizer=None)\n"
+        "        out.append(hashlib.sha256(p.generate().encode()).hexdigest())\n"
+        "print(json.dumps(out))\n"
+    )
+    bad = []
+    n = 0
+
+    def gen(gs):
+        r = subprocess.run([sys.executable, "-c", code, json.dumps(gs)], capture_output=True, text=True, env=dict(os.environ), check=False, timeout=120)
+        return json.loads(r.stdout.strip().splitlines()[-1]) if r.returncode == 0 and r.stdout.strip() else None
+
+    for g1, g2, rule, text in ORDER_PAIRS:
+        n += 3
+        alone1, alone2, after = gen([g1]), gen([g2]), gen([g1, g2])
+        back = gen([g2, g1])
+        if None in (alone1, alone2, after, back):
+            bad.append({"grammars": [g1, g2], "what": "generation failed in a subprocess"})
+        elif after[2:] != alone2 or back[2:] != alone1:
+            bad.append({"grammars": [g1, g2], "rule": rule, "text": text, "what": "source generated for the second grammar depends on the grammar generated before it"})
+    return {"name": "generation-order-independence", "kind": "bounded stand-in (fresh processes: grammar alone vs after another grammar)", "evaluations": n,
+            "bound": f"{len(ORDER_PAIRS)} pairs of grammars with identically printed rules of different meaning, both orders, optimizer on/off", "violation": bool(bad), "details": bad[:3]}
+
+
 def extra_checks(tier, seed):
-    return [assembly_check(), regeneration_check(), unroll_struct.check()]
+    return [assembly_check(), name_stress_check(), regeneration_check(), generation_order_check(), unroll_struct.check()]
